@@ -862,14 +862,18 @@ def model_lines(case):
             sh.do(copy.deepcopy(op))
             lines.append(_setparts(sh.s))
         elif k in ("gfield", "gset", "ginsert"):
-            sh.do(copy.deepcopy(op))
+            if not sh.do(copy.deepcopy(op)):
+                lines.append([Atom("noop")])        # rejected (only in shrunk histories): nothing changes
+                continue
             g = sh.layer(op[1])["glyphs"][op[2]]
             a, b = abs_glyph(fg.expected_dump({"layers": [{"name": "x", "color": None, "lib": {}, "glyphs": {op[2]: g}}], "info": {},
                                                "kerning": {}, "groups": {}, "features": None, "lib": {}, "images": {}, "data": {},
                                                "default": "x"})["layers"][0]["glyphs"][op[2]])
             lines.append([Atom("gset"), op[1], op[2], a, b])
         elif k == "gdel":
-            sh.do(copy.deepcopy(op))
+            if not sh.do(copy.deepcopy(op)):
+                lines.append([Atom("noop")])
+                continue
             lines.append([Atom("gdel"), op[1], op[2]])
         elif k == "dump":
             lines.append([Atom("observe")])
@@ -1151,7 +1155,7 @@ def run_font(case, tmpd):
                 status, extra = run.impl.do(copy.deepcopy(op))
             except Exception as e:
                 status, extra = "err:" + type(e).__name__, str(e)[:200]
-            outs.append(Atom("ok") if status == "ok" else [Atom("err"), Atom(status.split(":")[1])])
+            outs.append(Atom("ok"))       # whether the edit was accepted is judged by the oracle below, not by the model
             if (status == "ok") != bool(ok_expected) and not viol:
                 V("op-outcome", k, step=i, op=op, observed=status, detail=extra)
             continue
